@@ -41,6 +41,8 @@ class Ctx:
         self.violations_total = 0
         self.errors = []
         self.evaluations = 0
+        self.current_case = None
+        self.index = None
         self.units = 0
         self.max_samples = 6
         self.inflight_path = spec.get("inflight")
@@ -76,6 +78,7 @@ class Ctx:
 
     def begin(self, case):
         self.evaluations += 1
+        self.current_case = case
         if self.inflight_path:
             with open(self.inflight_path, "w") as f:
                 json.dump(case, f, default=str)
@@ -92,9 +95,13 @@ class Ctx:
         key = (signature, gen.digest(case))
         if key not in self.violation_keys and len(self.violations) < 60:
             self.violation_keys.add(key)
-            self.violations.append({"signature": signature, "what": what, "case": case,
+            origin = self.current_case if (self.current_case is not None and self.current_case is not case) else None
+            self.violations.append({"signature": signature, "what": what, "case": case, "origin_case": origin,
                                     "observed": jsonable(observed), "expected": jsonable(expected),
-                                    "mode": self.mode, "hashseed": os.environ.get("PYTHONHASHSEED")})
+                                    "mode": self.mode, "hashseed": os.environ.get("PYTHONHASHSEED"),
+                                    "shard_position": {"seed": self.spec.get("seed"), "shard": self.spec.get("shard"),
+                                                       "index": self.index, "params": self.params,
+                                                       "tier": self.tier}})
         if self.replay:
             raise ReplayFailure(f"{signature}: {what}\n observed={observed!r}\n expected={expected!r}")
 
@@ -181,6 +188,7 @@ def default_run_shard(mod, spec, ctx):
             ctx.count("stopped_early_cases_left", n - i)
             break
         rng = random.Random(f"{spec['seed']}/{spec['prop']}/{spec['shard']}/{i}")
+        ctx.index = i
         try:
             case = mod.gen_case(rng, ctx)
         except Exception:       # pylint: disable=broad-except
@@ -265,20 +273,50 @@ def replay_main(argv):
     with open(path) as f:
         wit = json.load(f)
     spec = {"prop": prop, "tier": "replay", "mode": wit.get("mode", "A"), "seed": 0, "shard": 0,
-            "params": wit.get("params", {})}
+            "params": wit.get("params", {}), "repo": os.path.abspath(os.environ.get("VERIF_REPO", "/repo"))}
     ctx = Ctx(spec, replay=True)
     mod = load_module(prop)
     if hasattr(mod, "setup"):
         mod.setup(ctx)
     try:
+        # the witness holds the (sub-)case the monitor judged and, when it differs, the full generated case it came from:
+        # re-executing the full case reproduces the judged run in its original history
+        full = wit.get("origin_case") or wit["case"]
         if hasattr(mod, "replay"):
             mod.replay(wit, ctx)
         else:
-            mod.check_case(wit["case"], ctx)
+            ctx.begin(full)
+            mod.check_case(full, ctx)
     except ReplayFailure as exc:
         traceback.print_exc()
         print(f"REPRODUCED property={prop} {exc}")
         return 1
+    # the violation may depend on state left in shared objects by the earlier cases of its shard (algorithm objects are
+    # reused across cases on purpose): re-run the shard from its first case up to the witness
+    pos = wit.get("shard_position") or {}
+    if pos.get("index") is not None and not hasattr(mod, "run_shard") and not hasattr(mod, "replay"):
+        spec2 = dict(spec, seed=pos["seed"], shard=pos["shard"], tier=pos.get("tier", "quick"), params=pos.get("params") or {})
+        ctx2 = Ctx(spec2, replay=True)
+        if hasattr(mod, "setup"):
+            mod.setup(ctx2)
+        try:
+            for i in range(pos["index"] + 1):
+                rng = random.Random(f"{spec2['seed']}/{prop}/{spec2['shard']}/{i}")
+                ctx2.index = i
+                case = mod.gen_case(rng, ctx2)
+                if case is None:
+                    continue
+                ctx2.begin(case)
+                try:
+                    mod.check_case(case, ctx2)
+                except ReplayFailure:
+                    raise
+                except Exception:      # pylint: disable=broad-except
+                    pass
+        except ReplayFailure as exc:
+            traceback.print_exc()
+            print(f"REPRODUCED property={prop} (by re-running its shard up to case {ctx2.index}) {exc}")
+            return 1
     print(f"NOT-REPRODUCED property={prop} (the witness passes on this tree)")
     return 0
 
